@@ -287,10 +287,14 @@ pub fn judge_path(prog: &Prog, class: Class, cfg: &HistCfg, path: &[PEvent], cra
           }
           Outcome::Applied => {}
         }
+        // Known finding F1: every stale task already had, at the start of this bottom-up build, an inconsistent
+        // dependency that is not a dependency on a reported resource (left behind by an earlier top-down or aborted
+        // build, possibly the leading require of this very session).
+        let rep_mask: u8 = reported.iter().fold(0, |m, r| m | (1 << *r));
+        let f1 = !entered.is_empty() && entered.iter().all(|t| an.stale_before_bottom_up(*t, rep_mask));
+        let _ = pre_mixed;
         for (oracle, what) in problems {
-          // Known finding F1: the history is mixed (a top-down or aborted build left tasks stale before this
-          // bottom-up build), which the property's quantifier sets aside.
-          let key = if pre_mixed { "C03/stale-before-bottom-up" } else { "" };
+          let key = if f1 { "C03/stale-before-bottom-up" } else { "" };
           if cfg.prop == Prop::C03 {
             findings.push(Finding { oracle: format!("C03/{}", oracle), key: key.to_string(), what });
           }
